@@ -1,12 +1,15 @@
 // misc.rs -- K9: racing opens and handle life cycle against the OpenLock model.
 //   hx race <file>      events: open <slot> | openstats <slot> | clone <slot> <new> | drop <slot> |
 //                       dropcas <slot> | dropstats <slot> | spawn <proc> | kill <proc> |
-//                       racethreads <n> | raceprocs <n>
+//                       racethreads <n> | raceprocs <n> |
+//                       openfd <slot>  (an open in its own thread, parked between opening LOCK and
+//                                       locking it: scheduling point `open.flock`) | lock <slot> (let it go on)
+//   after every event: `lock=present|absent` (is the name LOCK bound?)
 use std::collections::HashMap;
 use std::io::{BufRead, BufReader, Write};
 use std::path::{Path, PathBuf};
 use std::process::{Child, Command, Stdio};
-use std::sync::{Arc, Barrier};
+use std::sync::{Arc, Barrier, Condvar, Mutex};
 
 use cassadilia::{Cas, Config, LibError, OrphanStats};
 
@@ -17,6 +20,18 @@ fn cfg() -> Config { Config { num_ops_per_wal: std::num::NonZeroU64::new(3).unwr
 fn dir_digest(root: &Path) -> String { dump_dir(root, "", None).join("|") }
 fn outcome(r: &Result<(), LibError>) -> String {
     match r { Ok(()) => "opened".into(), Err(LibError::AlreadyOpened) => "already".into(), Err(e) => format!("err:{}", classify(&format!("{e:?}"))) }
+}
+
+// ---- two-step opens: threads named "pend-<slot>" park at the point `open.flock` until released ----
+struct Gate { arrived: Vec<String>, go: Vec<String> }
+static GATE: Mutex<Gate> = Mutex::new(Gate { arrived: Vec::new(), go: Vec::new() });
+static GCV: Condvar = Condvar::new();
+fn race_hook(name: &'static str) {
+    if name != "open.flock" { return; }
+    let me = match std::thread::current().name() { Some(n) if n.starts_with("pend-") => n[5..].to_string(), _ => return };
+    let mut g = GATE.lock().unwrap();
+    g.arrived.push(me.clone()); GCV.notify_all();
+    while !g.go.contains(&me) { g = GCV.wait(g).unwrap(); }
 }
 
 pub fn locks_main(_args: &[String]) { eprintln!("lock sequences are checked inside `hx conc` (K7)"); }
@@ -49,8 +64,11 @@ pub fn race_main(args: &[String]) {
             _ => {}
         }
     }
+    cassadilia::verif::set_point_hook(Box::new(race_hook));
     for (name, evs) in cases {
         println!("CASE {name}");
+        { let mut g = GATE.lock().unwrap(); g.arrived.clear(); g.go.clear(); }
+        let mut pendings: HashMap<String, std::thread::JoinHandle<Result<Cas<K>, LibError>>> = HashMap::new();
         let base = if Path::new("/dev/shm").is_dir() { PathBuf::from("/dev/shm") } else { std::env::temp_dir() };
         let td = tempfile::Builder::new().prefix("hxr").tempdir_in(std::env::var("HX_TMP").map(PathBuf::from).unwrap_or(base)).unwrap();
         let root = td.path().join("db");
@@ -73,6 +91,25 @@ pub fn race_main(args: &[String]) {
                     let (calls, _) = tr.read_new();
                     let o = outcome(&r);
                     if o == "already" { format!("already same={} calls=[{}]", before == dir_digest(&root), calls.join(";")) } else { o }
+                }
+                "openfd" => {
+                    let (r, slot) = (root.clone(), e[1].clone());
+                    let h = std::thread::Builder::new().name(format!("pend-{slot}")).spawn(move || Cas::<K>::open(&r, cfg())).unwrap();
+                    pendings.insert(slot.clone(), h);
+                    let mut g = GATE.lock().unwrap();
+                    let start = std::time::Instant::now();
+                    while !g.arrived.contains(&slot) && start.elapsed() < std::time::Duration::from_secs(10) { g = GCV.wait_timeout(g, std::time::Duration::from_millis(50)).unwrap().0; }
+                    if g.arrived.contains(&slot) { "none".into() } else { "err:never-reached-the-lock".into() }
+                }
+                "lock" => {
+                    match pendings.remove(&e[1]) {
+                        None => "none".into(),
+                        Some(h) => {
+                            { let mut g = GATE.lock().unwrap(); g.go.push(e[1].clone()); GCV.notify_all(); }
+                            let r = h.join().unwrap().map(|c| { cas.insert(e[1].clone(), c); });
+                            outcome(&r)
+                        }
+                    }
                 }
                 "clone" => { let c = cas.get(&e[1]).cloned(); match c { Some(c) => { cas.insert(e[2].clone(), c); "none".into() } None => "none".into() } }
                 "drop" | "dropcas" => { cas.remove(&e[1]); "none".into() }
@@ -108,7 +145,11 @@ pub fn race_main(args: &[String]) {
                 o => panic!("bad race event {o}"),
             };
             println!("E {i} {} -> {res}", e.join(" "));
+            println!("L {i} lock={}", if root.join("LOCK").exists() { "present" } else { "absent" });
         }
+        // opens still parked at the end of the case are let go and joined
+        { let mut g = GATE.lock().unwrap(); for s in pendings.keys() { g.go.push(s.clone()); } GCV.notify_all(); }
+        for (_, h) in pendings { let _ = h.join(); }
         for (_, mut ch) in procs { let _ = ch.kill(); let _ = ch.wait(); }
     }
 }
